@@ -689,11 +689,11 @@ pub fn judge_c14(cx: &DeliveryCtx, out: &mut RunOut) {
             // kind, status and message *class*: the text may name another of several offending
             // headers depending on hash order (DESIGN §4 C18), and pass-through of provider texts
             // is asserted by its own clause
-            ValOut::Err(e) => format!("Err {} {} {:?}", e.kind, e.status, classify(e).iter().map(|r| r.name()).collect::<Vec<_>>()),
+            ValOut::Err(e) => format!("Err {} {}|{:?}", e.kind, e.status, classify(e).iter().map(|r| r.name()).collect::<Vec<_>>()),
             other => other.short(),
         };
         let (a, b) = (sig(cx.out), sig(ctl));
-        if a != b {
+        if !crate::direct2::same_outcome(&a, &b) {
             out.violate("C14", "pending-states-do-not-change-outcome", format!("with ready_pending={} answer_pending={} (concurrent tasks, spurious polls) the outcome is {:?}; alone with an immediate provider giving the same answer it is {:?}; {}", cx.script.ready_pending, cx.script.answer_pending, a, b, ctx_line(cx)));
         }
     }
